@@ -4,6 +4,7 @@ from __future__ import annotations
 
 import collections
 import itertools
+import re
 
 import basix
 import numpy as np
@@ -27,7 +28,7 @@ RULE = (
     "form and compiled. Violation = C compiler error, or a built kernel disagreeing with the reference. Non-trivial = spec with >= 2 "
     "rules or a wild construct, and every rule pair; distinct by spec hash."
 )
-P_SUP = {"measures": ["dx", "dx", "ds", "dS", "dP"], "ids": "few", "max_integrals": 4, "depth": 2, "maxdeg": 3, "max_qdeg": 6, "p_scheme": 0.25, "p_vertex": 0.1}
+P_SUP = {"bessel": True, "measures": ["dx", "dx", "ds", "dS", "dP"], "ids": "few", "max_integrals": 4, "depth": 2, "maxdeg": 3, "max_qdeg": 6, "p_scheme": 0.25, "p_vertex": 0.1}
 ITYPES = ("cell", "exterior_facet", "interior_facet", "vertex")
 
 WILD = ["cell_avg", "facet_avg", "bessel", "raw-geometry", "prism-dS", "vertex-dg", "sumfact-nontp", "diag-different-spaces", "negative-id",
@@ -122,6 +123,8 @@ def evaluate_supported(spec, wd, options=None, wild=None):
     except kernels.CompileError as e:
         return Outcome("violation", case_id=h, classes=classes, key=f"{PROP}:cc:{h}", bucket=f"{PROP}:compiler-error:{_cc_signature(e.stderr)}",
                        what=f"FFCx accepted the input but the generated C does not compile: {_cc_first_error(e.stderr)}", replay=replay, sample=sample)
+    if kernels.uses_posix_bessel(mod.source):
+        classes = classes + ["posix-bessel:compiled-with-_DEFAULT_SOURCE(known finding excluded)"]
     if is_expr or (options and options.get("part") == "diagonal"):
         return Outcome("built", case_id=h, nontrivial=bool(wild), classes=classes + ["built"], sample=sample)
     # built: kernels must not silently compute something else
@@ -231,6 +234,33 @@ def check_pair(args):
     return (cell, rid, a[:4], b[:4], o.status, o.what[:300] if o.what else "")
 
 
+BESSEL_PROBE = {"kind": "form", "cell": "triangle", "gdim": 2, "cdeg": 1, "elements": [["el", "P", 1, {}]], "args": [0], "coefs": [0], "consts": [],
+                "integrals": [{"m": "dx", "id": None, "md": {}, "e": ["mul", ["bessel_J", ["lit", 1], ["add", ["lit", 1.5], ["tanh", ["f", 0]]]], ["v"]]}],
+                "data_seed": 3}
+
+
+def probe_bessel_strict_c17(run_):
+    """Fixed probe for the listed finding C19:bessel-posix-undeclared (the generators compile such sources with _DEFAULT_SOURCE)."""
+    built = specs.build(BESSEL_PROBE)
+    with scratch("vf-c19b-") as wd:
+        try:
+            _, source, _ = kernels.generate_code([built.form], {"scalar_type": "float64"})
+        except BaseException as e:  # noqa: BLE001 - a rejection is an allowed outcome
+            run_.count("bessel-probe:rejected:" + type(e).__name__)
+            return
+        run_.evaluations += 1
+        try:
+            kernels.cc_compile(source, wd, "besselprobe", strict_c17=True)
+            run_.count("bessel-probe:strict-c17-build-ok")
+        except kernels.CompileError as e:
+            first = _cc_first_error(e.stderr)
+            if "implicit declaration of function" in first and re.search(r"\b[jy]n\b", first.split("implicit declaration of function")[1]):
+                run_.fail(f"{PROP}:bessel-posix-undeclared", f"bessel_J(1, f)*v*dx: the generated C calls jn(), which <math.h> does not declare under -std=c17: {first}",
+                          {"spec": BESSEL_PROBE, "strict_c17": True}, bucket=f"{PROP}:bessel-posix-undeclared")
+            else:
+                run_.fail(f"{PROP}:bessel-probe:{_cc_signature(e.stderr)}", f"Bessel probe does not compile: {first}", {"spec": BESSEL_PROBE, "strict_c17": True})
+
+
 def shard(shard, nshards, n, seed):
     res = ShardResult()
     with scratch(f"vf-c19-{shard}-") as wd:
@@ -257,6 +287,7 @@ def run(tier: str) -> int:
         if status == "violation":
             run_.fail(f"{PROP}:rule-id-collision:{cell}:{a}:{b}", f"rules {a} and {b} on {cell} share the id {rid}: {what}",
                       {"spec": pair_form_spec(cell, a + (rid,), b + (rid,))}, bucket=f"{PROP}:rule-id-collision")
+    probe_bessel_strict_c17(run_)
     n = 8 if tier == "quick" else 180
     for part in run_shards(shard, 16, n=n, seed=verif_seed()):
         run_.merge(part)
@@ -270,6 +301,13 @@ def run(tier: str) -> int:
 
 def replay(doc) -> int:
     rp = doc["replay"]
+    if rp.get("strict_c17"):
+        r = Run(PROP, "quick")
+        probe_bessel_strict_c17(r)
+        for f in r.failures:
+            print("violation", f["what"])
+            print(f"VIOLATION property={PROP} replay=(replayed)")
+        return 1 if r.failures else 0
     with scratch("vf-replay-") as wd:
         o = evaluate_supported(rp["spec"], wd, options=rp.get("options"), wild=rp.get("wild"))
     print(o.status, o.what)
